@@ -86,9 +86,32 @@ def cases(tier):
 
 
 _TIER = "quick"
-_SCRATCH = None
+_BASE = None        # scratch directory of the run (made by the parent)
+_SCRATCH = None     # private sub-directory of this worker
 _RANDOM_OBJ = None
 _QUICK_KEYS = frozenset()
+
+
+def _remove_base(path, owner):
+    import shutil
+    if os.getpid() == owner:
+        shutil.rmtree(path, ignore_errors=True)
+
+
+def prepare(_tier):
+    """Parent side: one scratch directory per run, removed by finish() (or at
+    exit of the parent if the run aborts)."""
+    global _BASE
+    import atexit
+    from mc import runner
+    _BASE = runner.scratch_dir("c19")
+    atexit.register(_remove_base, _BASE, os.getpid())
+
+
+def finish(_tier, _totals):
+    if _BASE is not None:
+        _remove_base(_BASE, os.getpid())
+    return {}
 
 
 def init_worker(tier):
@@ -97,14 +120,13 @@ def init_worker(tier):
     _corpus(tier)
     if tier == "thorough":
         _QUICK_KEYS = frozenset(k for k, _b, _f in _corpus("quick"))
+    if _BASE is None:           # replay: no prepare() has run
+        prepare(tier)
     # PSyclone may write files into the cwd: never into /verif
-    from mc import runner
-    _SCRATCH = runner.scratch_dir("c19")
+    _SCRATCH = os.path.join(_BASE, f"w{os.getpid()}")
+    os.makedirs(_SCRATCH, exist_ok=True)
     os.chdir(_SCRATCH)
-    import atexit
-    import shutil
-    atexit.register(shutil.rmtree, _SCRATCH, True)
-    import psyclone.psyad.tl2ad  # noqa: F401  (import cost once per worker)
+    import psyclone.psyad.tl2ad  # noqa: F401 pylint: disable=unused-import
 
 
 # ---------------------------------------------------------------------------
@@ -311,7 +333,6 @@ def _tuplify(obj):
 
 
 def replay(case):
-    global _SCRATCH
     items = _tuplify(case["items"])
     active = tuple(case["active"])
     key = case.get("key") or G.key_of(items)
